@@ -119,7 +119,8 @@ def with_past_variants(fam_specs, tier, seed):
     first = fam_specs[0]
     variants = [seed % 4] if tier == "quick" else [0, 1, 2, 3]
     for v in variants:
-        fam_specs.append(dict(first, name="%s-past%d" % (first["name"], v), past=v))
+        # (the scripts are the base family's own: generated once, cached under its name)
+        fam_specs.append(dict(first, name="%s-past%d" % (first["name"], v), past=v, gen_name=first.get("gen_name", first["name"])))
     return fam_specs
 
 
@@ -140,7 +141,8 @@ def console_check(pid, tier, seed, work, mc_cfgs, fam_specs, level_note, hs_fams
             return confirmed_realtime(work, lambda nm: F.handshake_family(work, name=nm, **kw), fs["name"])
         return F.handshake_family(work, **fs)
     fam_specs = with_past_variants(fam_specs, tier, seed)
-    with cf.ThreadPoolExecutor(max_workers=3) as ex:
+    # (the thorough families are large: one replay at a time keeps the harness processes within memory)
+    with cf.ThreadPoolExecutor(max_workers=3 if tier == "quick" else 1) as ex:
         fams = list(ex.map(lambda fs: F.console_family(work, **fs), fam_specs))
         fams += list(ex.map(hs, hs_fams))
     require_accepted(fams)
@@ -653,7 +655,8 @@ def add_walk(res, work, fam_specs, note):
 def add_console(res, work, fam_specs, note):
     """Merge exhaustive console outcome families (TraceConsole) into a vector check's result."""
     fam_specs = with_past_variants(fam_specs, "quick", 1 + len(fam_specs))
-    with cf.ThreadPoolExecutor(max_workers=3) as ex:
+    big = any(fs.get("maxcalls", 0) * fs.get("maxatt", 0) >= 6 for fs in fam_specs)
+    with cf.ThreadPoolExecutor(max_workers=1 if big else 3) as ex:
         fams = list(ex.map(lambda fs: F.console_family(work, **fs), fam_specs))
     require_accepted(fams)
     extra = []
